@@ -32,12 +32,15 @@ func runC05(run *Run, replay string) {
 			scs = append(scs, impliedScenario(r))
 		}
 		for si, s := range scs {
+			// slices of the schema and parameter lists with spare capacity, as slices built by append have: a query
+			// appending to one in place writes shared memory
+			padSpareSchemaAndFunctions(s.W)
 			s.W.Collect()
 			var qs []Query
 			qs = append(qs, s.pathQueries(s.Main)...)
 			qs = append(qs, s.fileQueries(s.Main, s.File)...)
 			tbl := lcTable(s.Src)
-			for _, off := range cursorOffsets(r, s.Src, s.Kind == "directed", 12) {
+			for _, off := range append(cursorOffsets(r, s.Src, s.Kind == "directed", 12), callOffsets(s.Src)...) {
 				if pos, ok := tbl[off]; ok {
 					qs = append(qs, s.posQueries(s.Main, s.File, pos)...)
 				}
